@@ -82,6 +82,7 @@ class Exec:
   def clone(self):
     e = Exec(self.env, self.funcs)
     e.SELF_RECORD = self.SELF_RECORD
+    e.OPTION_NONE = getattr(self, "OPTION_NONE", False)
     e.attrs = dict(self.attrs)
     e.ret = self.ret
     return e
@@ -150,6 +151,10 @@ class Exec:
         if a.ty == "M" and b.ty == "M":
           return Val("M", f"(match {a.s}, {b.s} with Some a, Some b => Some (rnorm (rmul a b)) | _, _ => None end)")
         return Val("Z", f"({as_int(a)} * {as_int(b)})")
+      if isinstance(n.op, ast.FloorDiv):
+        return Val("Z", f"({as_int(a)} / {as_int(b)})")
+      if isinstance(n.op, ast.Pow) and a.ty == "Z" and a.s == "2":
+        return Val("Z", f"(2 ^ {as_int(b)})")
       raise Fail("binary op")
     if isinstance(n, ast.Compare) and len(n.ops) == 1:
       op, l, r = n.ops[0], n.left, n.comparators[0]
@@ -164,7 +169,17 @@ class Exec:
           raise Fail(f"substring {l.value!r}")
         s = f"({fn} {hay.s})"
         return Val("B", s if isinstance(op, ast.In) else f"(negb {s})")
+      if isinstance(op, (ast.Is, ast.IsNot)) and isinstance(r, ast.Constant) and r.value is None:
+        a = self.ev(l)
+        if a.ty != "M":
+          raise Fail("`is None` on something that is not an optional value")
+        yes, no = ("true", "false") if isinstance(op, ast.Is) else ("false", "true")
+        return Val("B", f"(match {a.s} with None => {yes} | Some _ => {no} end)")
       a, b = self.ev(l), self.ev(r)
+      if a.ty == "M" and getattr(self, "OPTION_NONE", False) and b.ty == "Z" and b.s.isdigit() and isinstance(op, (ast.Gt, ast.Lt)):
+        # an optional rational whose None case is guarded by `is not None`: the comparison is only evaluated on Some v
+        c = f"rlt ({b.s}, 1) v" if isinstance(op, ast.Gt) else f"rlt v ({b.s}, 1)"
+        return Val("B", f"(match {a.s} with Some v => {c} | None => false end)")
       if a.ty == "SlopeNZ":
         if isinstance(op, ast.NotEq) and b.ty == "Z" and b.s == "0":
           return Val("B", "slope_nonzero")
@@ -182,6 +197,11 @@ class Exec:
       if a.ty == "M":
         if b.ty == "Z" and b.s == "(-1)" and isinstance(op, ast.Eq):
           return Val("B", f"(match {a.s} with None => true | Some _ => false end)")
+        if b.ty == "Z" and b.s == "(-1)" and isinstance(op, ast.NotEq):
+          return Val("B", f"(match {a.s} with None => false | Some _ => true end)")
+        if b.ty == "Z" and b.s == "0" and isinstance(op, ast.LtE):
+          # None stands for -1, which is <= 0
+          return Val("B", f"(match {a.s} with None => true | Some v => rle v (0, 1) end)")
         raise Fail("max_val_po2 comparison")
       cmpop = {ast.Eq: "=?", ast.Gt: ">?", ast.Lt: "<?", ast.GtE: ">=?", ast.LtE: "<=?"}.get(type(op))
       if isinstance(op, ast.NotEq):
@@ -222,6 +242,15 @@ class Exec:
     if fn == "max":
       a, b = [as_int(self.ev(x)) for x in n.args]
       return Val("Z", f"(Z.max {a} {b})")
+    if fn == "min":
+      a, b = [as_int(self.ev(x)) for x in n.args]
+      return Val("Z", f"(Z.min {a} {b})")
+    if fn == "math.ceil" and len(n.args) == 1 and isinstance(n.args[0], ast.Call) and ast.unparse(n.args[0].func) == "np.log2":
+      v = self.ev(n.args[0].args[0])
+      if v.ty != "M":
+        raise Fail("math.ceil(np.log2(.)) of something that is not max_val_po2")
+      # exact ceil(log2 v) of a positive rational; the None (-1) case is never evaluated by the code (guarded by != -1)
+      return Val("Z", f"(match {v.s} with Some v => clog2_rat v | None => 0 end)")
     if fn == "any" and isinstance(n.args[0], ast.GeneratorExp):
       g = n.args[0]
       comp = g.generators[0]
@@ -323,6 +352,9 @@ class Exec:
       raise Fail(f"expression statement {c[:40]}")
     if isinstance(st, ast.Assert):
       return
+    if isinstance(st, ast.Raise):
+      self.rejected = True                             # this path rejects the input: it defines no value
+      return
     if isinstance(st, ast.Return):
       self.ret = self.ev(st.value)
       return
@@ -340,7 +372,12 @@ class Exec:
         if val.ty != "T" or len(val.items) != len(t.elts):
           raise Fail("tuple assignment")
         for e, it in zip(t.elts, val.items):
-          self.env[e.id] = it
+          if isinstance(e, ast.Name):
+            self.env[e.id] = it
+          elif isinstance(e, ast.Attribute) and isinstance(e.value, ast.Name) and e.value.id == "self" and not self.SELF_RECORD:
+            self.attrs[e.attr] = it
+          else:
+            raise Fail("tuple assignment target")
         return
       if isinstance(t, ast.Name):
         self.env[t.id] = self.ev(v)
@@ -389,10 +426,18 @@ class Exec:
         return gate
       if energy_only(st.body) and (not st.orelse or energy_only(st.orelse)):
         return
+      if all(isinstance(s_, ast.Assert) for s_ in st.body) and not st.orelse:
+        return
       c = as_bool(self.ev(st.test))
       a, b = self.clone(), self.clone()
       a.run(st.body)
       b.run(st.orelse)
+      if getattr(a, "rejected", False) and not getattr(b, "rejected", False):
+        self.env, self.attrs, self.ret = b.env, b.attrs, b.ret    # `if c: raise ...`: only the other path defines values
+        return
+      if getattr(b, "rejected", False) and not getattr(a, "rejected", False):
+        self.env, self.attrs, self.ret = a.env, a.attrs, a.ret
+        return
       for store, sa, sb in ((self.env, a.env, b.env), (self.attrs, a.attrs, b.attrs)):
         for k in set(sa) | set(sb):
           va, vb = sa.get(k), sb.get(k)
@@ -569,6 +614,23 @@ def emit(outdir):
         raise Fail(f"{cname}.__init__ sets no name")
       ex.run(find_func(cls, "convert_qkeras_quantizer").body)
       return f"Definition gen_conv_{cname} {params} : qt :=\n  {ex.attrs['__self__'].s}."
+    # ---- get_exp and the method that exposes it
+    ge = find_func(qi, "get_exp")
+    r = run_function(ge, [Val("Q", "t")], {})
+    if r.ty != "T" or len(r.items) != 2:
+      raise Fail("get_exp does not return a pair")
+    lines.append(f"Definition gen_get_exp (t : qt) : Z * Z :=\n  ({as_int(r.items[0])}, {as_int(r.items[1])}).")
+    for cname in ("PowerOfTwo", "ReluPowerOfTwo"):
+      cls = find_class(qi, cname)
+      try:
+        m = find_func(cls, "get_min_max_exp")
+      except Fail:
+        if not (cls.bases and ast.unparse(cls.bases[0]) == "PowerOfTwo"):
+          raise
+        continue
+      body = [x for x in m.body if not (isinstance(x, ast.Expr) and isinstance(x.value, ast.Constant))]
+      if not (len(body) == 1 and isinstance(body[0], ast.Return) and "".join(ast.unparse(body[0].value).split()) == "get_exp(self)"):
+        raise Fail(f"{cname}.get_min_max_exp is not get_exp(self)")
     lines.append(conv("QuantizedBits", "(bits integer : Z) (keep_negative : bool)"))
     lines.append(conv("QuantizedRelu", "(bits integer : Z) (slope_nonzero : bool)"))
   except Fail as e:
